@@ -134,6 +134,18 @@ CHECKS = {
              "and cu2qu's joint segment counts (fontTools) are not decided.",
         design_ref="DESIGN.md §5 C09", note=STATIC_NOTE,
         technique="static analysis: dominance/ordering rules on the pipeline, sibling agreement over class tables, constant evaluation of table sets, loop-shape rules, guard facts"),
+    "C10": dict(
+        text="Only the repository-side hand-off to fontTools.varLib / feaLib is decided, statically: in both variable-kerning functions "
+             "every full source contributes a value for every pair of the union of all sources' pairs, at its own location, from its "
+             "own kerning via lookupKerningValue, with only sparse layers and unknown glyphs skipped and the default location filled; "
+             "variable anchors take one value per source layer that has the glyph, from the right layer, without early exit; variable "
+             "layout is chosen only under variableFeatures and _featuresCompatible for every interpolable sub-document, GSUB is excluded "
+             "from the merge exactly then and feature variations are added back after compiling; masters skip features exactly then, "
+             "UFOs are remembered before being replaced and restored source by source; collapse_varscalar / get_userspace_location "
+             "shapes; _featuresCompatible compares every master with the default. The variation data and the numeric reproduction of "
+             "masters are computed by fontTools on runtime data and are NOT decided.",
+        design_ref="DESIGN.md §5 C10", note=STATIC_NOTE,
+        technique="static analysis: loop-shape and skip-condition rules over the per-source loops, guard facts, dominance/ordering, value-origin rules"),
 }
 
 _TODO = "check not built yet in this session (static rules designed in DESIGN.md §5; will be claimed when the rule set is armed)"
